@@ -80,6 +80,7 @@ class Lst:
     zipped: tuple = ()
     sliced: object = None  # for nums: (lo, hi) constant slice applied
     argobj: str = None  # the very list object passed for this parameter (not a copy): mutating it changes the caller's value
+    isiter: bool = False  # an iterator over the list (iter(xs)): next() consumes from the front, the source list is untouched
 
 
 @dataclass(frozen=True)
@@ -908,6 +909,14 @@ class Interp(object):
                 self.write_site(base, stmt, "store %s" % _src(t), fr)
                 new = self.setitem(base, idx, v, t, fr)
                 self.rebind(t.value, base, new, fr)
+                if base.dataof and base.kind == "plain" and new.rng != base.rng:
+                    # a bound established through the data view (`d = getdata(x); d[d > hi] = hi`) holds for every cell of x,
+                    # hidden ones included: the arrays this is the data of carry it too
+                    for k_, w_ in list(fr.env.items()):
+                        if isinstance(w_, Arr) and w_ is not new and w_.kind == "masked" and (w_.alias & base.dataof) and not w_.dataof:
+                            lo_ = new.rng[0] if new.rng[0] is not None else w_.rng[0]
+                            hi_ = new.rng[1] if new.rng[1] is not None else w_.rng[1]
+                            fr.env[k_] = replace(w_, rng=(lo_, hi_))
                 return
             self.unsupported("subscript store on %r" % (base,), stmt, fr)
         elif isinstance(t, ast.Attribute):
@@ -1677,6 +1686,9 @@ class ArrayInterp(Interp):
             if base.shape == "same":
                 self.finding("equivariance", e, "positional index along a data axis: %s" % _src(e), fr)
             return replace(base, shape="unknown")
+        if isinstance(idx, Arr) and isinstance(idx.sel, tuple) and idx.sel and idx.sel[0] == "argsort" and idx.shape == base.shape and base.shape in ("layervec", "flat"):
+            # x[argsort(x)] is x in ascending order; y[argsort(x)] is y carried along with it
+            return replace(base, alias=self.S(e), ascending=bool(set(idx.sel[1]) & set(base.alias)), D=base.D | idx.D, sel=None, cmp=None, maskof=E, dataof=E)
         if isinstance(idx, Arr) and isinstance(idx.sel, tuple) and idx.sel and idx.sel[0] == "inverse" and idx.shape == "raveled" and base.shape == "flat" and base.kind == "plain":
             # table[inverse]: one table entry per distinct value, looked up cell by cell (A30)
             return replace(base, shape="raveled", alias=self.S(e), D=base.D | idx.D, sel=None, cmp=None)
@@ -1792,6 +1804,10 @@ class ArrayInterp(Interp):
         validm_ = E
         if isbool and isinstance(op, ast.BitOr) and isinstance(b, Arr) and b.isbool and (a.cmp is None) != (b.cmp is None):
             cmp_ = a.cmp if a.cmp is not None else b.cmp  # `mask | (data == v)`: true at least where the comparison holds
+        elif isbool and isinstance(op, ast.BitOr) and isinstance(b, Arr) and b.isbool and a.cmp is not None and b.cmp is not None \
+                and a.cmp[1] == b.cmp[1] == "Eq" and a.cmp[0] & b.cmp[0] and a.cmp[3:] == b.cmp[3:]:
+            # `(data == v) | (data == w)`: equality of the same data with one of two numbers
+            cmp_ = (a.cmp[0] | b.cmp[0], "Eq", ("or", a.cmp[2], b.cmp[2])) + tuple(a.cmp[3:])
         if isbool and isinstance(op, ast.BitAnd) and isinstance(b, Arr) and b.isbool:
             # `valid & (data > hi)`: true only at valid cells, and only where the comparison holds
             validof_ = a.validof | b.validof
@@ -1829,6 +1845,17 @@ class ArrayInterp(Interp):
                             self.ev(a_, fr)
                     self.res.fresh_executes.append((e, rc[1], self.fkey(fr)))
                     return self.run_execute(m, e, fr)
+        if qn == "builtins.next" and len(e.args) == 1 and isinstance(e.args[0], ast.Name) and isinstance(fr.env.get(e.args[0].id), Lst) and fr.env[e.args[0].id].isiter:
+            # next(it) on an iterator over an input list: its first element; the iterator continues with the rest
+            base = fr.env[e.args[0].id]
+            if base.what in ("arrs", "cmds", "masks") and base.part == "all":
+                fr.env[e.args[0].id] = replace(base, part="rest")
+                return self.part_elem(replace(base, part="first")) if base.what != "cmds" else Cmd(base.L, "first")
+            if base.what == "nums" and base.sliced in (None, (None, None), (0, None)):
+                el = base.elem if isinstance(base.elem, Scal) else Scal()
+                fr.env[e.args[0].id] = replace(base, sliced=(1, None))
+                return Scal(D=el.D, Pg=el.Pg, dt=el.dt, sym="%s[0]" % ",".join(base.srcs))
+            self.unsupported("a second next() on an iterator over an input list", e, fr)
         if qn == "builtins.next" and e.args and isinstance(e.args[0], ast.GeneratorExp) and len(e.args[0].generators) == 1 and isinstance(e.args[0].generators[0].target, ast.Name) \
                 and isinstance(e.args[0].elt, ast.Name) and e.args[0].elt.id == e.args[0].generators[0].target.id:
             # `next((a for a in xs if test(a)), default)`: a probe for the first element with some property; the value is one of the
@@ -1925,6 +1952,12 @@ class ArrayInterp(Interp):
                 a0 = A[0] if A else None
                 if isinstance(a0, Scal):
                     return Scal(D=a0.D, Pg=a0.Pg, sym=a0.sym, const=a0.const)
+                return Scal()
+            if fv.tag == "opaque" and fv.info == "dtype.type":
+                # x.dtype.type(v): the number v as that element type stores it
+                A, K = self.eval_args(e, fr)
+                if len(A) == 1 and isinstance(A[0], Scal):
+                    return Scal(D=A[0].D, Pg=A[0].Pg, sym="cast(%s)" % (A[0].sym or scal_id(A[0])))
                 return Scal()
             if fv.tag in ("opaque", "ncds", "ncvar", "file", "exc", "join", "dict", "str", "rawarg", "dtype", "set", "dictobj", "maybe-undefined"):
                 A, K = self.eval_args(e, fr)
@@ -2406,7 +2439,14 @@ class ArrayInterp(Interp):
         if qn in ("numpy.ma.array", "numpy.ma.MaskedArray", "numpy.ma.masked_array", "numpy.ma.asarray", "numpy.ma.asanyarray"):
             return self.make_masked_array(qn, e, A, K, fr)
         if qn in ("numpy.array", "numpy.asarray", "numpy.asanyarray", "numpy.ascontiguousarray"):
+            cp_ = K.get("copy")
+            fresh_ = qn == "numpy.array" and not (isinstance(cp_, Other) and cp_.tag in ("bool", "none") and cp_.info is not True) and (cp_ is None or isinstance(cp_, Other))
             if isinstance(a0, Arr):
+                if fresh_:
+                    # numpy.array(x) copies by default (copy=True): new storage, whatever x was (a masked operand loses its mask, A1)
+                    if a0.kind == "masked":
+                        return replace(a0, kind="plain", M=E, Pc=a0.Pc | a0.D, alias=S(), maskof=E, dataof=E, rng=(None, None))
+                    return replace(a0, alias=S(), maskof=E, dataof=E)
                 if a0.kind == "masked" and qn != "numpy.asanyarray":
                     return replace(a0, kind="plain", M=E, Pc=a0.Pc | a0.D, alias=a0.alias | S(), maskof=E, dataof=a0.alias, rng=(None, None))
                 return replace(a0, alias=a0.alias | S())
@@ -2718,6 +2758,12 @@ class ArrayInterp(Interp):
                   "numpy.take", "numpy.squeeze", "numpy.expand_dims", "numpy.swapaxes", "numpy.moveaxis", "numpy.tile", "numpy.repeat", "numpy.flipud", "numpy.fliplr",
                   "numpy.ma.ravel", "numpy.ma.reshape", "numpy.ma.transpose", "numpy.ma.squeeze", "numpy.ma.expand_dims", "numpy.ma.swapaxes", "numpy.ma.cumsum", "numpy.ma.diff", "numpy.ma.take",
                   "numpy.ma.repeat", "numpy.ma.argsort", "numpy.atleast_1d", "numpy.atleast_2d", "numpy.atleast_3d", "numpy.ma.atleast_1d", "numpy.ma.atleast_2d", "numpy.ma.atleast_3d"):
+            if isinstance(a0, Arr) and qn in ("numpy.sort", "numpy.ma.sort") and a0.shape in ("layervec", "flat") and len(A) == 1 and "axis" not in K:
+                # a sorted copy of a private 1-D collection of values: fresh, ascending, no grid cell moves
+                return replace(a0, alias=S(), ascending=True, maskof=E, dataof=E, cmp=None, sel=None)
+            if isinstance(a0, Arr) and qn in ("numpy.argsort", "numpy.ma.argsort") and a0.shape in ("layervec", "flat") and len(A) == 1 and "axis" not in K:
+                # the permutation that puts a 1-D collection in ascending order: x[argsort(x)] is ascending
+                return Arr(kind="plain", alias=S(), shape=a0.shape, dt=I_, D=a0.D, Pg=a0.Pg, sel=("argsort", tuple(sorted(a0.alias))))
             if isinstance(a0, Arr) and qn == "numpy.tile" and len(e.args) == 2 and a0.shape == "same":
                 # tile(x, [n] + [1] * x.ndim): n copies of x along a new leading axis, for every rank (a fresh array)
                 rp = e.args[1]
@@ -2852,7 +2898,7 @@ class ArrayInterp(Interp):
                 return Lst("opaque")
             if isinstance(a0, Lst) and short == "reversed" and a0.what in ("arrs", "cmds"):
                 return a0
-            return replace(a0, argobj=None) if isinstance(a0, Lst) else Lst("opaque")
+            return replace(a0, argobj=None, isiter=(short == "iter")) if isinstance(a0, Lst) else Lst("opaque")
         if short in ("set", "frozenset"):
             return Other("set")
         if short == "range":
